@@ -132,6 +132,17 @@ def generic_union_members(out):
         ('Union[int, T, str, T][T=float]', G4[float], [int, float, str], [(3, 3), (2.5, 2.5), ('s', 's')]),
         ('Union[int, T, str, T][T=str]', G4[str], [int, str], [('s', 's'), (3, 3)]),
     ]
+    class G5(pane.PaneBase, t.Generic[T]):
+        u: T
+        us: t.List[T] = pane.field(default_factory=list)
+    # the same generic class parameterised with one union in two member orders, in one process: two different classes
+    for first, second in ((t.Union[int, float], t.Union[float, int]), (t.Union[float, int], t.Union[int, float]),
+                          (t.Optional[t.Union[bool, int]], t.Optional[t.Union[int, bool]])):
+        for U_ in (first, second):
+            ms = [a for a in t.get_args(U_)]
+            v = True if bool in ms else 1
+            want = next(m for m in ms if m is not type(None))(v)
+            cases.append((f'G[{U_!r}] (created after G[{first!r}])', G5[U_], ms, [(v, want)]))
     with warnings.catch_warnings():
         warnings.simplefilter('ignore')
         for label, cls, members, probes in cases:
